@@ -2,10 +2,12 @@
 
 from __future__ import annotations
 
+from itertools import repeat
 from typing import TYPE_CHECKING
 from typing import Self
 
 from pest.grammar import Expression
+from pest.grammar.expressions.sequence import Sequence
 
 if TYPE_CHECKING:
     from pest.grammar.codegen.builder import Builder
@@ -166,95 +168,24 @@ class RepeatOnce(Expression):
     This corresponds to the `+` operator in pest.
     """
 
-    __slots__ = ("expression",)
+    __slots__ = ("expression", "_unrolled")
 
     def __init__(self, expression: Expression):
         super().__init__(None)
         self.expression = expression
+        # pest defines this operator by its unrolled form; matching and code
+        # generation are delegated to it so that all execution modes agree.
+        self._unrolled = Sequence(expression, Repeat(expression))
 
     def __str__(self) -> str:
         return f"{self.tag_str()}{self.expression}+"
 
     def parse(self, state: ParserState, pairs: list[Pair]) -> bool:
-        state.checkpoint()
-        children: list[Pair] = []
-        matched = self.expression.parse(state, children)
-
-        if not matched:
-            state.restore()
-            return False
-
-        state.ok()
-        pairs.extend(children)
-        children.clear()
-
-        while True:
-            state.checkpoint()
-            state.parse_trivia(children)
-            matched = self.expression.parse(state, children)
-            if not matched:
-                state.restore()
-                break
-
-            state.ok()
-            pairs.extend(children)
-            children.clear()
-
-        return True
+        return self._unrolled.parse(state, pairs)
 
     def generate(self, gen: Builder, matched_var: str, pairs_var: str) -> None:
         """Emit Python code for repeat one or more times."""
-        gen.writeln("# <RepeatOnce>")
-        acc_pairs = gen.new_temp("children")
-        tmp_pairs = gen.new_temp("item_children")
-        count_var = gen.new_temp("count")
-        trivia_pos = gen.new_temp("trivia_pos")
-
-        gen.writeln(f"{trivia_pos} = state.pos")
-        gen.writeln(f"{acc_pairs}: list[Pair] = []")
-        gen.writeln(f"{tmp_pairs}: list[Pair] = []")
-        gen.writeln(f"{count_var} = 0")
-
-        gen.writeln("while True:")
-        with gen.block():
-            gen.writeln("state.checkpoint()")
-            # Parse one item
-            self.expression.generate(gen, matched_var, tmp_pairs)
-
-            gen.writeln(f"if {matched_var}:")
-            with gen.block():
-                gen.writeln(f"{count_var} += 1")
-                gen.writeln("state.ok()")
-
-                # Commit the item immediately
-                gen.writeln(f"{acc_pairs}.extend({tmp_pairs})")
-                gen.writeln(f"{tmp_pairs}.clear()")
-
-                # Save pos before trivia
-                gen.writeln(f"{trivia_pos} = state.pos")
-
-                # Parse trivia after item.
-                # Non-silent trivia will be added to acc_pairs on the next
-                # iteration if it succeeds.
-                gen.writeln(f"parse_trivia(state, {tmp_pairs})")
-
-            gen.writeln("else:")
-            with gen.block():
-                # Restore checkpoint and also rewind trivia pos
-                gen.writeln("state.restore()")
-                gen.writeln(f"state.pos = {trivia_pos}")
-                gen.writeln("break")
-
-        # After the loop, validate minimum
-        gen.writeln(f"if {count_var} < 1:")
-        with gen.block():
-            gen.writeln(f"{matched_var} = False")
-        gen.writeln("else:")
-        with gen.block():
-            gen.writeln(f"{pairs_var}.extend({acc_pairs})")
-            gen.writeln(f"{matched_var} = True")
-
-        gen.writeln("# </RepeatOnce>")
+        self._unrolled.generate(gen, matched_var, pairs_var)
 
     def children(self) -> list[Expression]:
         """Return this expression's children."""
@@ -274,97 +205,26 @@ class RepeatExact(Expression):
     __slots__ = (
         "expression",
         "number",
+        "_unrolled",
     )
 
     def __init__(self, expression: Expression, number: int):
         super().__init__(None)
         self.expression = expression
         self.number = number
+        # pest defines this operator by its unrolled form; matching and code
+        # generation are delegated to it so that all execution modes agree.
+        self._unrolled = Sequence(*repeat(expression, number))
 
     def __str__(self) -> str:
         return f"{self.expression}{{{self.number}}}"
 
     def parse(self, state: ParserState, pairs: list[Pair]) -> bool:
-        if self.number == 0:
-            return True
-
-        children: list[Pair] = []
-        accumulator: list[Pair] = []
-        match_count = 0
-        state.checkpoint()
-
-        matched = self.expression.parse(state, accumulator)
-
-        if not matched:
-            state.restore()
-            return False
-
-        match_count += 1
-
-        while match_count < self.number:
-            state.checkpoint()
-            state.parse_trivia(children)
-            matched = self.expression.parse(state, children)
-
-            if not matched:
-                state.restore()
-                break
-
-            match_count += 1
-            state.ok()
-            accumulator.extend(children)
-            children.clear()
-
-        if match_count == self.number:
-            pairs.extend(accumulator)
-            state.ok()
-            return True
-
-        state.restore()
-        return False
+        return self._unrolled.parse(state, pairs)
 
     def generate(self, gen: Builder, matched_var: str, pairs_var: str) -> None:
         """Emit Python code for a bounded repetition expression (E{num})."""
-        gen.writeln(f"# <RepeatExact n={self.number}>")
-
-        start_pos = gen.new_temp("start")
-        tmp_pairs = gen.new_temp("children")
-        count_var = gen.new_temp("count")
-
-        gen.writeln(f"{start_pos} = state.pos")
-        gen.writeln(f"{tmp_pairs}: list[Pair] = []")
-        gen.writeln(f"{count_var} = 0")
-
-        gen.writeln("while True:")
-        with gen.block():
-            gen.writeln("state.checkpoint()")
-            self.expression.generate(gen, matched_var, tmp_pairs)
-
-            gen.writeln(f"if {matched_var}:")
-            with gen.block():
-                gen.writeln(f"{count_var} += 1")
-                gen.writeln("state.ok()")
-                # Stop if we've already reached the maximum
-                gen.writeln(f"if {count_var} >= {self.number}:")
-                with gen.block():
-                    gen.writeln("break")
-                gen.writeln(f"parse_trivia(state, {tmp_pairs})")
-            gen.writeln("else:")
-            with gen.block():
-                gen.writeln("state.restore()")
-                gen.writeln("break")
-
-        # After the loop, validate minimum
-        gen.writeln(f"if {count_var} < {self.number}:")
-        with gen.block():
-            gen.writeln(f"state.pos = {start_pos}")
-            gen.writeln(f"{matched_var} = False")
-        gen.writeln("else:")
-        with gen.block():
-            # Append successful children to the parent pair list
-            gen.writeln(f"{pairs_var}.extend({tmp_pairs})")
-
-        gen.writeln("# </RepeatExact>")
+        self._unrolled.generate(gen, matched_var, pairs_var)
 
     def children(self) -> list[Expression]:
         """Return this expression's children."""
@@ -384,97 +244,26 @@ class RepeatMin(Expression):
     __slots__ = (
         "expression",
         "number",
+        "_unrolled",
     )
 
     def __init__(self, expression: Expression, number: int):
         super().__init__(None)
         self.expression = expression
         self.number = number
+        # pest defines this operator by its unrolled form; matching and code
+        # generation are delegated to it so that all execution modes agree.
+        self._unrolled = Sequence(*repeat(expression, number), Repeat(expression))
 
     def __str__(self) -> str:
         return f"{self.expression}{{{self.number},}}"
 
     def parse(self, state: ParserState, pairs: list[Pair]) -> bool:
-        children: list[Pair] = []
-        accumulator: list[Pair] = []
-        match_count = 0
-        state.checkpoint()
-
-        matched = self.expression.parse(state, accumulator)
-
-        if not matched:
-            state.restore()
-            # No match at all satisfies a minimum of zero.
-            return self.number == 0
-
-        match_count += 1
-
-        while True:
-            state.checkpoint()
-            state.parse_trivia(children)
-            matched = self.expression.parse(state, children)
-
-            if not matched:
-                state.restore()
-                break
-
-            match_count += 1
-            state.ok()
-            accumulator.extend(children)
-            children.clear()
-
-        if match_count >= self.number:
-            pairs.extend(accumulator)
-            state.ok()
-            return True
-
-        state.restore()
-        return False
+        return self._unrolled.parse(state, pairs)
 
     def generate(self, gen: Builder, matched_var: str, pairs_var: str) -> None:
         """Emit Python code for a bounded repetition expression (E{min,})."""
-        gen.writeln(f"# <RepeatMin n={self.number}>")
-
-        start_pos = gen.new_temp("start")
-        tmp_pairs = gen.new_temp("children")
-        item_pairs = gen.new_temp("item_children")
-        count_var = gen.new_temp("count")
-
-        gen.writeln(f"{start_pos} = state.pos")
-        gen.writeln(f"{tmp_pairs}: list[Pair] = []")
-        gen.writeln(f"{item_pairs}: list[Pair] = []")
-        gen.writeln(f"{count_var} = 0")
-
-        gen.writeln("while True:")
-        with gen.block():
-            gen.writeln("state.checkpoint()")
-            # Pairs of a failed iteration must not reach the accumulator.
-            self.expression.generate(gen, matched_var, item_pairs)
-            gen.writeln(f"if {matched_var}:")
-            with gen.block():
-                gen.writeln(f"{count_var} += 1")
-                gen.writeln("state.ok()")
-                gen.writeln(f"{tmp_pairs}.extend({item_pairs})")
-                gen.writeln(f"{item_pairs}.clear()")
-                # TODO: backtrack last trivia
-                gen.writeln(f"parse_trivia(state, {tmp_pairs})")
-            gen.writeln("else:")
-            with gen.block():
-                gen.writeln("state.restore()")
-                gen.writeln("break")
-
-        # After the loop, validate minimum
-        gen.writeln(f"if {count_var} < {self.number}:")
-        with gen.block():
-            gen.writeln(f"state.pos = {start_pos}")
-            gen.writeln(f"{matched_var} = False")
-        gen.writeln("else:")
-        with gen.block():
-            gen.writeln(f"{matched_var} = True")
-            # Append successful children to the parent pair list
-            gen.writeln(f"{pairs_var}.extend({tmp_pairs})")
-
-        gen.writeln("# </RepeatMin>")
+        self._unrolled.generate(gen, matched_var, pairs_var)
 
     def children(self) -> list[Expression]:
         """Return this expression's children."""
@@ -494,93 +283,26 @@ class RepeatMax(Expression):
     __slots__ = (
         "expression",
         "number",
+        "_unrolled",
     )
 
     def __init__(self, expression: Expression, number: int):
         super().__init__(None)
         self.expression = expression
         self.number = number
+        # pest defines this operator by its unrolled form; matching and code
+        # generation are delegated to it so that all execution modes agree.
+        self._unrolled = Sequence(*repeat(Optional(expression), number))
 
     def __str__(self) -> str:
         return f"{self.expression}{{,{self.number}}}"
 
     def parse(self, state: ParserState, pairs: list[Pair]) -> bool:
-        if self.number == 0:
-            return True
-
-        children: list[Pair] = []
-        accumulator: list[Pair] = []
-        match_count = 0
-        state.checkpoint()
-
-        matched = self.expression.parse(state, accumulator)
-
-        if not matched:
-            state.restore()
-            # No match at all satisfies a minimum of zero.
-            return True
-
-        match_count += 1
-
-        while match_count < self.number:
-            state.checkpoint()
-            state.parse_trivia(children)
-            matched = self.expression.parse(state, children)
-
-            if not matched:
-                state.restore()
-                break
-
-            match_count += 1
-            state.ok()
-            accumulator.extend(children)
-            children.clear()
-
-        if match_count <= self.number:
-            pairs.extend(accumulator)
-            state.ok()
-            return True
-
-        state.restore()
-        return False
+        return self._unrolled.parse(state, pairs)
 
     def generate(self, gen: Builder, matched_var: str, pairs_var: str) -> None:
         """Emit Python code for a bounded repetition expression (E{,max})."""
-        gen.writeln(f"# <RepeatMax n={self.number}>")
-
-        tmp_pairs = gen.new_temp("children")
-        item_pairs = gen.new_temp("item_children")
-        count_var = gen.new_temp("count")
-
-        gen.writeln(f"{tmp_pairs}: list[Pair] = []")
-        gen.writeln(f"{item_pairs}: list[Pair] = []")
-        gen.writeln(f"{count_var} = 0")
-
-        gen.writeln("while True:")
-        with gen.block():
-            gen.writeln("state.checkpoint()")
-            # Pairs of a failed iteration must not reach the accumulator.
-            self.expression.generate(gen, matched_var, item_pairs)
-            gen.writeln(f"if {matched_var}:")
-            with gen.block():
-                gen.writeln(f"{count_var} += 1")
-                gen.writeln("state.ok()")
-                gen.writeln(f"{tmp_pairs}.extend({item_pairs})")
-                gen.writeln(f"{item_pairs}.clear()")
-                # Stop if we've already reached the maximum
-                gen.writeln(f"if {count_var} >= {self.number}:")
-                with gen.block():
-                    gen.writeln("break")
-                gen.writeln(f"parse_trivia(state, {tmp_pairs})")
-            gen.writeln("else:")
-            with gen.block():
-                gen.writeln("state.restore()")
-                gen.writeln("break")
-
-        gen.writeln(f"{matched_var} = True")
-        # Append successful children to the parent pair list
-        gen.writeln(f"{pairs_var}.extend({tmp_pairs})")
-        gen.writeln("# </RepeatMax>")
+        self._unrolled.generate(gen, matched_var, pairs_var)
 
     def children(self) -> list[Expression]:
         """Return this expression's children."""
@@ -601,6 +323,7 @@ class RepeatMinMax(Expression):
         "expression",
         "min",
         "max",
+        "_unrolled",
     )
 
     def __init__(self, expression: Expression, min_: int, max_: int):
@@ -608,93 +331,22 @@ class RepeatMinMax(Expression):
         self.expression = expression
         self.min = min_
         self.max = max_
+        # pest defines this operator by its unrolled form; matching and code
+        # generation are delegated to it so that all execution modes agree.
+        self._unrolled = Sequence(
+            *repeat(expression, min_),
+            *repeat(Optional(expression), max(max_ - min_, 0)),
+        )
 
     def __str__(self) -> str:
         return f"{self.expression}{{{self.min}, {self.max}}}"
 
     def parse(self, state: ParserState, pairs: list[Pair]) -> bool:
-        children: list[Pair] = []
-        accumulator: list[Pair] = []
-        match_count = 0
-        state.checkpoint()
-
-        matched = self.expression.parse(state, accumulator)
-
-        if not matched:
-            state.restore()
-            # No match at all satisfies a minimum of zero.
-            return self.min == 0
-
-        match_count += 1
-
-        while match_count < self.max:
-            state.checkpoint()
-            state.parse_trivia(children)
-            matched = self.expression.parse(state, children)
-
-            if not matched:
-                state.restore()
-                break
-
-            match_count += 1
-            state.ok()
-            accumulator.extend(children)
-            children.clear()
-
-        if match_count >= self.min and match_count <= self.max:
-            pairs.extend(accumulator)
-            state.ok()
-            return True
-
-        state.restore()
-        return False
+        return self._unrolled.parse(state, pairs)
 
     def generate(self, gen: Builder, matched_var: str, pairs_var: str) -> None:
         """Emit Python code for a bounded repetition expression (E{min,max})."""
-        gen.writeln(f"# <RepeatMinMax min={self.min} max={self.max}>")
-
-        start_pos = gen.new_temp("start")
-        tmp_pairs = gen.new_temp("children")
-        item_pairs = gen.new_temp("item_children")
-        count_var = gen.new_temp("count")
-
-        gen.writeln(f"{start_pos} = state.pos")
-        gen.writeln(f"{tmp_pairs}: list[Pair] = []")
-        gen.writeln(f"{item_pairs}: list[Pair] = []")
-        gen.writeln(f"{count_var} = 0")
-
-        gen.writeln("while True:")
-        with gen.block():
-            gen.writeln("state.checkpoint()")
-            # Pairs of a failed iteration must not reach the accumulator.
-            self.expression.generate(gen, matched_var, item_pairs)
-            gen.writeln(f"if {matched_var}:")
-            with gen.block():
-                gen.writeln(f"{count_var} += 1")
-                gen.writeln("state.ok()")
-                gen.writeln(f"{tmp_pairs}.extend({item_pairs})")
-                gen.writeln(f"{item_pairs}.clear()")
-                # Stop if we've already reached the maximum
-                gen.writeln(f"if {count_var} >= {self.max}:")
-                with gen.block():
-                    gen.writeln("break")
-                gen.writeln(f"parse_trivia(state, {tmp_pairs})")
-            gen.writeln("else:")
-            with gen.block():
-                gen.writeln("state.restore()")
-                gen.writeln("break")
-
-        gen.writeln(f"if {count_var} < {self.min}:")
-        with gen.block():
-            gen.writeln(f"state.pos = {start_pos}")
-            gen.writeln(f"{matched_var} = False")
-        gen.writeln("else:")
-        with gen.block():
-            gen.writeln(f"{matched_var} = True")
-            # Append successful children to the parent pair list
-            gen.writeln(f"{pairs_var}.extend({tmp_pairs})")
-
-        gen.writeln("# </RepeatMinMax>")
+        self._unrolled.generate(gen, matched_var, pairs_var)
 
     def children(self) -> list[Expression]:
         """Return this expression's children."""
